@@ -102,6 +102,7 @@ def parseOp (ws : List String) : Option Op :=
   | ["rfinish", i, rv] => on i (.rfinish (parseRv rv))
   | ["delkey", i, f, rv] => on i (.delkey (parseFault f) (parseRv rv))
   | ["write", i, w, f] => (parseW w).bind fun w => on i (.write w (parseFault f))
+  | ["idalloc", i, f] => on i (.idalloc (parseFault f))
   | ["check", i] => on i .check
   | ["isleader", i] => on i .isleader
   | ["tso", i] => on i .tso
@@ -136,6 +137,8 @@ def touched (s : St) : Op → List Key
     match s.conts[i]? with
     | some c => (writeTxn ⟨s.etcd, s.stamp, c⟩ w).2.map EOp.key
     | none => []
+  | .on i (.idalloc _) =>
+    match s.conts[i]? with | some c => [Key.allocId c.key] | none => []
   | .rawtxn c t e => c.map Cmp.key ++ (t ++ e).map EOp.key
   | _ => []
 
@@ -306,6 +309,23 @@ def monitor (m : Mon) (op : Op) (x : Impl) : Mon × List String :=
         if e.good then [] else
           [s!"sig=C03.guarded-write-not-iff-owner cont={i} kind={repr w} owner={owner} ok={ok} unchanged={unchanged} faulted={e.faulted} skipped={e.skipped}"]
     | _ => []
+  -- id allocation: a non-owner changes nothing; an id handed out lies inside the durably stored window
+  let idEv : List String :=
+    match op with
+    | .on i (.idalloc _) =>
+      if isBad then [] else
+      match vBefore i with
+      | none => []
+      | some v =>
+        let owner := match m.prev.recOf v.key with | some r => r.val == v.member | none => false
+        let stored := match x.kv.find? (fun e => e.1 = Key.allocId v.key) with | some e => e.2.1 | none => 0
+        (if !owner && !unchanged then
+          [s!"sig=C03.guarded-write-not-iff-owner cont={i} kind=id-alloc owner=false unchanged=false"] else []) ++
+        (match words x.out with
+         | ["ok", n] => if natArg n ≤ stored && natArg n != 0 then [] else
+             [s!"sig=C03.id-from-unpersisted-window cont={i} id={natArg n} stored-window-end={stored}"]
+         | _ => [])
+    | _ => []
   -- (b) service requests
   let serveEv : List String :=
     let mk (i : Nat) (served : Bool) (what : String) : List String :=
@@ -346,7 +366,7 @@ def monitor (m : Mon) (op : Op) (x : Impl) : Mon × List String :=
       let bad := cur.views.filter fun v => !((!v.serves || cur.holder v) && (!v.check || v.lease == 0 || cur.live.contains v.lease))
       [s!"sig=C03.serving-or-checked-without-live-record members={bad.map (·.member)} leases={bad.map (·.lease)}"])
   ({ prev := cur, prevKv := x.kv, prevStr := x.kvStr, faithful := faithful, won := won1, clocks := clocks1, parked := parked1 },
-   campaignEv ++ writeEv ++ serveEv ++ resignEv ++ snapEv)
+   campaignEv ++ writeEv ++ idEv ++ serveEv ++ resignEv ++ snapEv)
 
 /-! ### driver -/
 
